@@ -4,6 +4,7 @@ From Coq Require Import NArith List Bool String.
 From DBG Require Import Interop.Val Spec.Dna Packed.KmerModel Algo.KmerHist Interop.DispatchExts Interop.DispatchSeq.
 From DBG Require Interop.DispatchBBHash Interop.DispatchGraph.
 From DBG Require Interop.DispatchAscii.
+From DBG Require Interop.DispatchScan.
 Import ListNotations.
 Open Scope N_scope.
 
@@ -129,7 +130,8 @@ Definition dispatchers : list (string -> val -> option val) :=
   [ d_kmer; d_spec_kmer; d_exts; run_table generic_spec_ops; d_seq;
     DispatchGraph.d_graph;
     DispatchAscii.d_ascii;
-    DispatchBBHash.d_bbhash
+    DispatchBBHash.d_bbhash;
+    (fun op v => if DispatchScan.is_scan_op op then DispatchScan.d_scan op v else None)
   ].
 Fixpoint first_some (ds : list (string -> val -> option val)) (op : string) (v : val) : option val :=
   match ds with
